@@ -266,6 +266,33 @@ func (b *builder) buildRule(ev *Event, ruleID string, depth int) *ProofNode {
 				partial = true
 				continue
 			}
+			if !isGround(fact) {
+				// The premise has a wildcard, which the rule's substitution
+				// does not bind: any stored fact that matches the pattern and
+				// can be proved here is a witness for it.
+				var witness *ProofNode
+				for _, f := range b.matches(fact) {
+					sub := b.build(f, depth+1)
+					if len(sub) == 0 {
+						continue
+					}
+					if witness == nil || witness.Partial {
+						witness = sub[0]
+					}
+					if !witness.Partial {
+						break
+					}
+				}
+				if witness == nil {
+					partial = true
+					continue
+				}
+				if witness.Partial {
+					partial = true
+				}
+				premiseProofs = append(premiseProofs, witness)
+				continue
+			}
 			sub := b.build(fact, depth+1)
 			if len(sub) == 0 {
 				partial = true
@@ -308,6 +335,18 @@ func (b *builder) buildRule(ev *Event, ruleID string, depth int) *ProofNode {
 	}
 	node.ID = derivedProofID(ruleID, ev.Output, premiseProofs)
 	return node
+}
+
+// matches returns the stored facts that unify with the given pattern.
+func (b *builder) matches(pattern ast.Atom) []ast.Atom {
+	var out []ast.Atom
+	b.store.GetFacts(pattern, func(f ast.Atom) error {
+		if _, err := unionfind.UnifyTermsExtend(pattern.Args, f.Args, unionfind.New()); err == nil {
+			out = append(out, f)
+		}
+		return nil
+	})
+	return out
 }
 
 func (b *builder) buildLet(ev *Event, ruleID string, depth int) *ProofNode {
